@@ -20,7 +20,7 @@ LIT = {
     "dict[str, int]": "{'k': 1}", "int | None": "None", "tuple[int, str]": "(1, 's')",
 }
 EXPORT_KINDS = ["func", "func", "cls", "cls", "const", "alias", "box", "proto", "nt", "td", "dc", "enum", "ovl", "deco", "reexport"]
-IMPORT_STYLES = ["import", "import", "from", "star", "func", "tc"]
+IMPORT_STYLES = ["import", "import", "from", "star", "func", "tc", "frompkg"]
 
 
 def new_export(rnd: random.Random, kind: str, state=None, mod=None) -> dict:
@@ -79,6 +79,8 @@ def initial(rnd: random.Random, nmods: int) -> dict:
     if nmods >= 5:
         names[-1] = "pkg.s0"
         names[-2] = "pkg"
+    if nmods >= 7:
+        names[-3] = "pkg.sub.mod"  # depth 3; pkg/sub/__init__.py is created empty by render()
     for n in names:
         st["mods"][n] = {"exports": {}, "uses": [], "imports": {}, "broken": False, "layout": "package" if n == "pkg" else "module", "stub": None}
         st["order"].append(n)
@@ -149,6 +151,8 @@ def ref(m, dep: str, name: str) -> str:
     style = m["imports"].get(dep)
     if style in ("from", "star"):
         return name
+    if style == "frompkg" and "." in dep:
+        return "%s.%s" % (dep.rsplit(".", 1)[1], name)
     return "%s.%s" % (dep, name)
 
 
@@ -266,8 +270,11 @@ def render_module(st, mod, stub=False) -> str:
         out.insert(0, "# stub for %s" % mod)
     func_level, tc = [], []
     for dep, style in m["imports"].items():
-        if style == "import":
-            out.append("import %s" % dep)
+        ign = "  # type: ignore" if dep in m.get("import_ignore", []) else ""
+        if style == "frompkg" and "." in dep:
+            out.append("from %s import %s%s" % (dep.rsplit(".", 1)[0], dep.rsplit(".", 1)[1], ign))
+        elif style in ("import", "frompkg"):
+            out.append("import %s%s" % (dep, ign))
         elif style == "from":
             names = sorted({u["name"] for u in m["uses"] if u["dep"] == dep} | {e["srcname"] for e in m["exports"].values() if e["kind"] == "reexport" and e.get("src") == dep} | {e["base"][1] for e in m["exports"].values() if e.get("base") and e["base"][0] == dep} | {e["rcls"][1] for e in m["exports"].values() if e.get("rcls") and e["rcls"][0] == dep})
             if names:
@@ -329,7 +336,7 @@ def render(st) -> dict:
 # ---------------------------------------------------------------- edits
 
 EDIT_KINDS = ["change_export", "change_export", "change_export", "add_export", "remove_export", "add_use", "remove_use", "change_use", "add_import", "remove_import", "restyle_import",
-              "toggle_broken", "toggle_semblock", "toggle_ignore", "delete_module", "add_module", "rename_module", "to_package", "add_stub", "remove_stub", "set_base", "make_subclass", "fix_errors"]
+              "toggle_broken", "toggle_semblock", "toggle_ignore", "toggle_unlisted", "toggle_import_ignore", "toggle_body_error", "toggle_body_error", "delete_module", "delete_module", "add_module", "rename_module", "to_package", "add_stub", "remove_stub", "set_base", "make_subclass", "fix_errors"]
 
 
 def draw_edit(st, rnd: random.Random) -> dict:
@@ -355,7 +362,7 @@ def draw_edit(st, rnd: random.Random) -> dict:
         if others:
             op["dep"] = rnd.choice(others)
             op["style"] = rnd.choice(IMPORT_STYLES)
-    if kind in ("remove_import", "restyle_import") and m["imports"]:
+    if kind in ("remove_import", "restyle_import", "toggle_import_ignore") and m["imports"]:
         op["dep"] = rnd.choice(sorted(m["imports"]))
         op["style"] = rnd.choice(IMPORT_STYLES)
     if kind == "add_module":
@@ -416,6 +423,21 @@ def apply_edit(st, op) -> bool:
         del m["imports"][op["dep"]]
     elif kind == "restyle_import" and op.get("dep") in m["imports"]:
         m["imports"][op["dep"]] = op["style"]
+    elif kind == "toggle_body_error":
+        # body-only edit: an error appears/disappears inside a definition, the interface stays the same
+        cands = sorted(k for k, x in m["exports"].items() if x["kind"] in ("func", "cls", "dc"))
+        if cands:
+            e = m["exports"][rnd.choice(cands)]
+            e["ok"] = not e["ok"]
+    elif kind == "toggle_unlisted":
+        # stop / start naming the module on the command line (it is then reached by import following only)
+        if any(mod in om["imports"] for o, om in st["mods"].items() if o != mod):
+            m["unlisted"] = not m.get("unlisted")
+    elif kind == "toggle_import_ignore" and m["imports"]:
+        dep = op.get("dep") if op.get("dep") in m["imports"] else sorted(m["imports"])[0]
+        ig = set(m.get("import_ignore", []))
+        ig.symmetric_difference_update({dep})
+        m["import_ignore"] = sorted(ig)
     elif kind == "toggle_broken":
         m["broken"] = not m["broken"]
     elif kind == "toggle_semblock":
@@ -468,7 +490,7 @@ def apply_edit(st, op) -> bool:
 
 PROFILES = {
     # daemon-friendly fragments, enabled construct by construct (C03 saturation protocol)
-    "basic": {"edits": ["change_export", "change_export", "add_export", "remove_export", "add_use", "remove_use", "change_use", "toggle_ignore", "toggle_semblock", "fix_errors", "set_base", "make_subclass", "make_subclass"],
+    "basic": {"edits": ["change_export", "change_export", "add_export", "remove_export", "add_use", "remove_use", "change_use", "toggle_ignore", "toggle_semblock", "toggle_body_error", "fix_errors", "set_base", "make_subclass", "make_subclass"],
               "styles": ["import", "import", "from"], "kinds": ["func", "func", "cls", "cls", "const", "alias", "box", "nt", "dc", "enum", "ovl"]},
     "structure": {"edits": ["change_export", "add_export", "remove_export", "add_use", "remove_use", "change_use", "add_import", "remove_import", "restyle_import", "toggle_broken", "toggle_ignore",
                             "delete_module", "add_module", "set_base", "fix_errors"],
@@ -508,3 +530,14 @@ def _history(seed: int, nmods: int, nsteps: int):
 
 def graph_shape(st) -> str:
     return ";".join("%s->%s" % (m, ",".join(sorted(st["mods"][m]["imports"]))) for m in sorted(st["mods"]))
+
+
+def unlisted_paths(st) -> list:
+    """Files of modules that are NOT named on the command line (reached through imports only)."""
+    out = []
+    for mod, m in st["mods"].items():
+        if m.get("unlisted") and any(mod in om["imports"] and not om.get("unlisted") for o, om in st["mods"].items() if o != mod):
+            out.append(path_of(mod, m["layout"]))
+            if m["stub"] is not None:
+                out.append(path_of(mod, m["layout"], ".pyi"))
+    return out
